@@ -307,15 +307,17 @@ impl<K: RecognizerReadable, V: RecognizerReadable> Decoder for MapOperationDecod
                             break Ok(None);
                         }
                         Err(e) => {
+                            // The rest of the key and the value (if any) belong to the rejected frame.
+                            let to_discard = (*remaining).saturating_add(value_size.unwrap_or(0));
                             let rem = src.remaining();
-                            if rem >= *remaining {
-                                src.advance(*remaining);
+                            if rem >= to_discard {
+                                src.advance(to_discard);
                                 *state = MapOperationDecoderState::ReadingHeader;
                                 break Err(e.into());
                             } else {
                                 src.clear();
                                 *state = MapOperationDecoderState::Discarding {
-                                    remaining: *remaining - rem,
+                                    remaining: to_discard - rem,
                                     error: Some(e),
                                 }
                             }
